@@ -630,6 +630,13 @@ def check_doubling(P, f, lp, lst, s):
     if src(tgt.slice) != i:
         return "violation", f"the pass stores into `{src(tgt)}`, not into `{lst}[{i}]`"
     val = st.value
+    arms = [val.body, val.orelse] if isinstance(val, ast.IfExp) else [val]  # `(iadd if i == 0 else add)(a, b)` in canonical form
+    for arm in arms[1:]:
+        r0 = sorted(src(n.slice).replace(" ", "") for n in ast.walk(arms[0]) if isinstance(n, ast.Subscript) and isinstance(n.value, ast.Name) and n.value.id == lst)
+        r1 = sorted(src(n.slice).replace(" ", "") for n in ast.walk(arm) if isinstance(n, ast.Subscript) and isinstance(n.value, ast.Name) and n.value.id == lst)
+        if r0 != r1:
+            return "violation", "the two arms of the combining expression read different nodes"
+    val = arms[0]
     reads = [n for n in ast.walk(val) if isinstance(n, ast.Subscript) and isinstance(n.value, ast.Name) and n.value.id == lst]
     idxs = sorted(src(n.slice).replace(" ", "") for n in reads)
     want = sorted([i, f"{i}+{s}"]) if isinstance(st, ast.Assign) else [f"{i}+{s}"]
@@ -639,7 +646,7 @@ def check_doubling(P, f, lp, lst, s):
     if isinstance(st, ast.AugAssign):
         if not isinstance(st.op, ast.Add):
             return "violation", "the pass does not add"
-    elif not R_.adds(val, reads):
+    elif not all(R_.adds(a_, reads) for a_ in arms):
         # add = iadd if ... else add; add(L[i], L[i+s])
         return "violation", f"`{src(val)[:50]}` does not add the two nodes"
     return "ok", f"stride-doubling tree over `{lst}`: invariant L[i] = sum(L[i : i + 2s]) for i multiple of 2s"
